@@ -20,6 +20,7 @@ CONSTANTS
   Edits = FALSE
   Prefix <- NoPrefix
   MaxHavoc = 1
+  KeepRec = FALSE
 INVARIANT NoBad
 INVARIANT Structural
 CHECK_DEADLOCK FALSE
